@@ -30,7 +30,7 @@ structure Inv (l : Link M) : Prop where
   clrAB : l.exAB = true → ∀ s ∈ l.sent, ¬ (s.src < s.dst)
   clrBA : l.exBA = true → ∀ s ∈ l.sent, s.src < s.dst
 
-theorem inv_init (a b : Nat) (h : a < b) : Inv (init a b : Link M) := by
+theorem inv_init (a b : Nat) (h : a < b) (fm : Bool := false) : Inv (init a b fm : Link M) := by
   refine ⟨⟨h, ?_⟩, ?_, ?_, ?_, ?_, ?_⟩ <;> simp [init]
 
 theorem mem_filter_sub {p : Sent M → Bool} {s : Sent M} {l : List (Sent M)}
@@ -80,13 +80,58 @@ theorem inv_drain {l : Link M} (h : Inv l) (host : Nat) :
       · intro s hm; exact h3 s (Or.inr (Or.inr hm))
     · exact ⟨⟨⟨hlt, hs⟩, h1, h2, h3, h4, h5⟩, by simp⟩
 
+/-- the remaining ready queues after `clearReady` are sub-lists of the old ones. -/
+theorem clearReady_sub (l : Link M) (d : Nat) :
+    (l.clearReady d).1.Sublist l.toA ∧ (l.clearReady d).2.1.Sublist l.toB := by
+  unfold clearReady
+  split
+  · exact ⟨List.nil_sublist _, List.Sublist.refl _⟩
+  · split
+    · exact ⟨List.Sublist.refl _, List.nil_sublist _⟩
+    · exact ⟨List.Sublist.refl _, List.Sublist.refl _⟩
+
+/-- what an explicit partition leaves of a link (both variants). -/
+theorem explicitPartition_fields (l : Link M) :
+    l.explicitPartition.1.a = l.a ∧ l.explicitPartition.1.b = l.b ∧ l.explicitPartition.1.sent = [] ∧
+    l.explicitPartition.1.stAB = .explicit ∧ l.explicitPartition.1.stBA = .explicit ∧
+    l.explicitPartition.1.exAB = true ∧ l.explicitPartition.1.exBA = true ∧
+    l.explicitPartition.1.toA.Sublist l.toA ∧ l.explicitPartition.1.toB.Sublist l.toB ∧
+    l.explicitPartition.1.now = l.now ∧ l.explicitPartition.1.nextId = l.nextId ∧
+    l.explicitPartition.1.fixMatured = l.fixMatured := by
+  unfold explicitPartition
+  split
+  · exact ⟨rfl, rfl, rfl, rfl, rfl, rfl, rfl, List.nil_sublist _, List.nil_sublist _, rfl, rfl, rfl⟩
+  · exact ⟨rfl, rfl, rfl, rfl, rfl, rfl, rfl, List.Sublist.refl _, List.Sublist.refl _, rfl, rfl, rfl⟩
+
+/-- what a one-way partition leaves of a link (both variants). -/
+theorem partitionOneway_fields (l : Link M) (s d : Nat) :
+    (l.partitionOneway s d).1.a = l.a ∧ (l.partitionOneway s d).1.b = l.b ∧
+    (l.partitionOneway s d).1.sent = l.sent.filter (fun x => x.src != s) ∧
+    (l.partitionOneway s d).1.stAB = (if s < d then .explicit else l.stAB) ∧
+    (l.partitionOneway s d).1.stBA = (if s < d then l.stBA else .explicit) ∧
+    (l.partitionOneway s d).1.exAB = (if s < d then true else l.exAB) ∧
+    (l.partitionOneway s d).1.exBA = (if s < d then l.exBA else true) ∧
+    (l.partitionOneway s d).1.toA.Sublist l.toA ∧ (l.partitionOneway s d).1.toB.Sublist l.toB ∧
+    (l.partitionOneway s d).1.now = l.now ∧ (l.partitionOneway s d).1.nextId = l.nextId ∧
+    (l.partitionOneway s d).1.fixMatured = l.fixMatured := by
+  have hc := clearReady_sub l d
+  unfold partitionOneway
+  simp only
+  split <;> split <;>
+    first
+    | exact ⟨rfl, rfl, rfl, rfl, rfl, rfl, rfl, hc.1, hc.2, rfl, rfl, rfl⟩
+    | exact ⟨rfl, rfl, rfl, rfl, rfl, rfl, rfl, List.Sublist.refl _, List.Sublist.refl _, rfl, rfl, rfl⟩
+
 theorem inv_explicitPartition {l : Link M} (h : Inv l) : Inv l.explicitPartition.1 := by
   obtain ⟨⟨hlt, _⟩, _, _, h3, _, _⟩ := h
-  refine ⟨⟨hlt, by simp [explicitPartition]⟩, by simp [explicitPartition], by simp [explicitPartition],
-    ?_, by simp [explicitPartition], by simp [explicitPartition]⟩
+  obtain ⟨ea, eb, es, e1, e2, e3, e4, sA, sB, _⟩ := explicitPartition_fields l
+  refine ⟨⟨by rw [ea, eb]; exact hlt, by rw [es]; simp⟩, fun _ => e1, fun _ => e2, ?_, by rw [es]; simp, by rw [es]; simp⟩
   intro s hm
-  simp only [explicitPartition, List.not_mem_nil, false_or] at hm
-  exact h3 s (Or.inr hm)
+  rw [es] at hm
+  rcases hm with hm | hm | hm
+  · cases hm
+  · exact h3 s (Or.inr (Or.inl (sA.subset hm)))
+  · exact h3 s (Or.inr (Or.inr (sB.subset hm)))
 
 theorem inv_explicitRepair {l : Link M} (h : Inv l) : Inv l.explicitRepair := by
   obtain ⟨⟨hlt, hs⟩, _, _, h3, _, _⟩ := h
@@ -105,35 +150,45 @@ theorem inv_partitionDir {l : Link M} (h : Inv l) (ab : Bool) : Inv (l.partition
   have hnlt : ¬ l.b < l.a := Nat.not_lt.mpr (Nat.le_of_lt hlt)
   cases ab
   · -- b → a
-    simp only [partitionDir, partitionOneway, hnlt, if_false, Bool.false_eq_true]
-    refine ⟨⟨hlt, ?_⟩, h1, by simp, ?_, ?_, ?_⟩
-    · intro s hm; exact hs s (mem_filter_sub hm)
+    simp only [partitionDir, Bool.false_eq_true, if_false]
+    obtain ⟨ea, eb, es, e1, e2, e3, e4, sA, sB, _⟩ := partitionOneway_fields l l.b l.a
+    simp only [hnlt, if_false] at e1 e2 e3 e4
+    refine ⟨⟨by rw [ea, eb]; exact hlt, ?_⟩, ?_, fun _ => e2, ?_, ?_, ?_⟩
+    · rw [ea, eb, es]; intro s hm; exact hs s (mem_filter_sub hm)
+    · rw [e3, e1]; exact h1
     · intro s hm
+      rw [es] at hm
       rcases hm with hm | hm | hm
       · exact h3 s (Or.inl (mem_filter_sub hm))
-      · exact h3 s (Or.inr (Or.inl hm))
-      · exact h3 s (Or.inr (Or.inr hm))
-    · intro he s hm; exact h4 he s (mem_filter_sub hm)
-    · intro _ s hm
+      · exact h3 s (Or.inr (Or.inl (sA.subset hm)))
+      · exact h3 s (Or.inr (Or.inr (sB.subset hm)))
+    · rw [e3, es]; intro he s hm; exact h4 he s (mem_filter_sub hm)
+    · rw [es]
+      intro _ s hm
       have hm' := List.mem_filter.mp hm
-      rcases hs s hm'.1 with ⟨e1, e2⟩ | ⟨e1, e2⟩
-      · rw [e1, e2]; exact hlt
-      · simp [e1] at hm'
+      rcases hs s hm'.1 with ⟨e1', e2'⟩ | ⟨e1', e2'⟩
+      · rw [e1', e2']; exact hlt
+      · simp [e1'] at hm'
   · -- a → b
-    simp only [partitionDir, partitionOneway, hlt, if_true]
-    refine ⟨⟨hlt, ?_⟩, by simp, h2, ?_, ?_, ?_⟩
-    · intro s hm; exact hs s (mem_filter_sub hm)
+    simp only [partitionDir, if_true]
+    obtain ⟨ea, eb, es, e1, e2, e3, e4, sA, sB, _⟩ := partitionOneway_fields l l.a l.b
+    simp only [hlt, if_true] at e1 e2 e3 e4
+    refine ⟨⟨by rw [ea, eb]; exact hlt, ?_⟩, fun _ => e1, ?_, ?_, ?_, ?_⟩
+    · rw [ea, eb, es]; intro s hm; exact hs s (mem_filter_sub hm)
+    · rw [e4, e2]; exact h2
     · intro s hm
+      rw [es] at hm
       rcases hm with hm | hm | hm
       · exact h3 s (Or.inl (mem_filter_sub hm))
-      · exact h3 s (Or.inr (Or.inl hm))
-      · exact h3 s (Or.inr (Or.inr hm))
-    · intro _ s hm
+      · exact h3 s (Or.inr (Or.inl (sA.subset hm)))
+      · exact h3 s (Or.inr (Or.inr (sB.subset hm)))
+    · rw [es]
+      intro _ s hm
       have hm' := List.mem_filter.mp hm
-      rcases hs s hm'.1 with ⟨e1, e2⟩ | ⟨e1, e2⟩
-      · simp [e1] at hm'
-      · rw [e1, e2]; exact hnlt
-    · intro he s hm; exact h5 he s (mem_filter_sub hm)
+      rcases hs s hm'.1 with ⟨e1', e2'⟩ | ⟨e1', e2'⟩
+      · simp [e1'] at hm'
+      · rw [e1', e2']; exact hnlt
+    · rw [e4, es]; intro he s hm; exact h5 he s (mem_filter_sub hm)
 
 theorem inv_repairDir {l : Link M} (h : Inv l) (ab : Bool) : Inv (l.repairDir ab) := by
   obtain ⟨⟨hlt, hs⟩, h1, h2, h3, h4, h5⟩ := h
